@@ -321,7 +321,7 @@ static bool case_c14(const Plan& pl0, Stats& st, Violation& v) {
     if (cc.monitor_static) rt_static_snapshot();
     TaskArg ta{&pl, ws, &outs}; PrepCtx pc{&pl, ft};
     std::vector<SchedSeg> log(4096); size_t nlog = 0; SchedResult sr;
-    rt_run_tasks(pl.ntasks, task_fn, &ta, chooser, &cc, 100000000ull, log.data(), log.size(), &nlog, &sr, ctxs.data(), prep_fn, &pc);
+    rt_run_tasks(pl.ntasks, task_fn, &ta, chooser, &cc, 400000000ull, log.data(), log.size(), &nlog, &sr, ctxs.data(), prep_fn, &pc);
     work_shared_destroy(ws);
     if (ft.op >= 0) rt_arena_expect_leaks(); else rt_arena_preserve_live();
     rt_env_release();
@@ -452,14 +452,22 @@ int main(int argc, char** argv) {
       st.lib_preempt += one.lib_preempt; st.runs_two_preempted += one.runs_two_preempted; st.static_checks += one.static_checks; st.static_rebaselined += one.static_rebaselined; st.yields_cb += one.yields_cb; st.colocated += one.colocated;
       for (uint64_t k : one.keys) if (st.keys.insert(k).second && keysf) fwrite(&k, 8, 1, keysf);
       if (keysf) fflush(keysf);
-      if (bad && seen_sigs.insert(v.cls + "|" + v.sig).second) {
+      // one report per coarse signature (incidental attributes dropped), so that frequent variants of one defect
+      // neither flood the driver nor stop the search
+      auto coarse = [](const std::string& s) {
+        std::istringstream in(s); std::string tok, out;
+        static const char* drop[] = {"et=", "jt=", "len=", "first_in_group=", "delta_sign=", "any_path_before=", "dcb=", "op="};
+        while (in >> tok) { bool d = false; for (const char* p : drop) if (tok.compare(0, strlen(p), p) == 0) d = true; if (!d) { out += tok; out += ' '; } }
+        return out;
+      };
+      if (bad && seen_sigs.insert(v.cls + "|" + coarse(v.sig)).second) {
         ++nviol;
         std::string pf = outdir + "/viol-" + wid + "-" + std::to_string(r) + ".plan";
         v.plan.expect = v.cls; write_file(pf, plan_to_text(v.plan)); write_file(pf + ".detail", v.detail + "\n");
         printf("VIOL %" PRIu64 " class=%s file=%s sig=%s\n", r, v.cls.c_str(), pf.c_str(), v.sig.c_str());
       }
       printf("END %" PRIu64 " dig=%016" PRIx64 " evals=%" PRIu64 " steps=%" PRIu64 " faults=%" PRIu64 " keys=%zu\n", r, one.digest, one.evals, one.steps, one.fault_runs, one.keys.size()); fflush(stdout);
-      if (nviol >= 60) break;
+      if (nviol >= 400) break;
     }
     // dump coverage and keys for the evidence file
     if (keysf) fclose(keysf);
